@@ -1,0 +1,137 @@
+//go:build verif
+
+package queryparser
+
+// Contracts for the deductive verifier in /verif (govc). Comments only; compiled only with the build tag "verif".
+//
+// The lexer runs in its own goroutine and hands items over a channel; goroutines and channels are outside the verifier's
+// subset. The hand-over is summarised by a ghost token log on the lexer (ntoks / ttyp / tstart / tend) and a read
+// position (rd): emit/errorf append to the log, nextItem reads the next entry. lex, emit, errorf, nextItem and drain
+// are TRUSTED summaries of the channel operations; everything else (state functions, run loop, parser) is verified.
+
+//@ ghost field lexer.ntoks int
+//@ ghost field lexer.ttyp (Array Int Int)
+//@ ghost field lexer.tstart (Array Int Int)
+//@ ghost field lexer.tend (Array Int Int)
+//@ ghost field lexer.rd int
+
+//@ pure final(t int) bool := t == 0 || t == 1
+//@ pred LexInv(l *lexer) := l != nil && 0 <= l.start && l.start <= l.pos && l.pos <= len(l.input) && 0 <= l.width && 0 <= l.ntoks
+//@ pred CanBackup(l *lexer) := l.start <= l.pos - l.width
+//@ pred Running(l *lexer) := forall j int :: 0 <= j && j < l.ntoks ==> !final(l.ttyp[j])
+//@ pred Stopped(l *lexer) := l.ntoks >= 1 && final(l.ttyp[l.ntoks - 1]) && (forall j int :: 0 <= j && j < l.ntoks - 1 ==> !final(l.ttyp[j]))
+
+// character classes of the literals passed to acceptRun (facts about strings.ContainsRune on these literals)
+//@ axiom set_space: forall r int :: { inSet("\r\n\t ", r) } inSet("\r\n\t ", r) <==> (r == 13 || r == 10 || r == 9 || r == 32)
+//@ axiom set_digit: forall r int :: { inSet("0123456789", r) } inSet("0123456789", r) <==> (48 <= r && r <= 57)
+//@ axiom set_ident: forall r int :: { inSet("0123456789abcdefghijklmnopqrstuvwxyzABCDEFGHIJKLMNOPQRSTUVWXYZ_", r) }
+//@    inSet("0123456789abcdefghijklmnopqrstuvwxyzABCDEFGHIJKLMNOPQRSTUVWXYZ_", r) <==> ((48 <= r && r <= 57) || (97 <= r && r <= 122) || (65 <= r && r <= 90) || r == 95)
+
+//@ func [C09] (*lexer).next(l) (r)
+//@   requires LexInv(l)
+//@   modifies l.pos; l.width
+//@   ensures [C09] LexInv(l) && CanBackup(l) && l.pos == old(l.pos) + l.width
+//@   ensures [C09] (r == -1) <==> old(l.pos) >= len(l.input)
+//@   ensures [C09] r == -1 ==> l.width == 0
+//@   ensures [C09] r != -1 ==> l.width >= 1 && 0 <= r && r <= 1114111
+//@   ensures [C09] r != -1 && l.input[old(l.pos)] < 128 ==> r == l.input[old(l.pos)] && l.width == 1
+//@   ensures [C09] r != -1 && l.input[old(l.pos)] >= 128 ==> r >= 128
+
+//@ func [C09] (*lexer).backup(l)
+//@   requires LexInv(l) && CanBackup(l)
+//@   modifies l.pos
+//@   ensures [C09] LexInv(l) && l.pos == old(l.pos) - l.width
+
+//@ func [C09] (*lexer).peek(l) (r)
+//@   requires LexInv(l)
+//@   modifies l.pos; l.width
+//@   ensures [C09] LexInv(l) && l.pos == old(l.pos)
+//@   ensures [C09] (r == -1) <==> l.pos >= len(l.input)
+//@   ensures [C09] r != -1 ==> 0 <= r && r <= 1114111
+//@   ensures [C09] r != -1 && l.input[l.pos] < 128 ==> r == l.input[l.pos]
+//@   ensures [C09] r != -1 && l.input[l.pos] >= 128 ==> r >= 128
+
+//@ func [C09] (*lexer).ignore(l)
+//@   requires LexInv(l)
+//@   modifies l.start
+//@   ensures [C09] LexInv(l) && l.start == l.pos
+
+//@ func [C09] (*lexer).acceptRun(l, valid)
+//@   requires LexInv(l)
+//@   requires ascii_class: forall r int :: inSet(valid, r) ==> 0 <= r && r < 128
+//@   modifies l.pos; l.width
+//@   ensures [C09] LexInv(l) && l.pos >= old(l.pos)
+//@   ensures [C09] run_is_in_class: forall i int :: old(l.pos) <= i && i < l.pos ==> inSet(valid, l.input[i])
+//@   ensures [C09] run_is_maximal: l.pos < len(l.input) && l.input[l.pos] < 128 ==> !inSet(valid, l.input[l.pos])
+//@   loop 1
+//@     invariant LexInv(l) && old(l.pos) <= l.pos
+//@     invariant forall i int :: old(l.pos) <= i && i < l.pos ==> inSet(valid, l.input[i])
+//@     decreases len(l.input) - l.pos
+
+//@ func [C09] (*lexer).lineNumber(l) (result)
+//@   requires l != nil && 0 <= l.lastPos && l.lastPos <= len(l.input)
+//@ func [C09] (*lexer).columnInLine(l) (result)
+//@   requires l != nil && 0 <= l.lastPos && l.lastPos <= len(l.input)
+
+// ---- trusted summaries of the channel operations
+//@ trusted func (*lexer).emit(l, t)
+//@   requires LexInv(l)
+//@   modifies l.start; l.ntoks; l.ttyp; l.tstart; l.tend
+//@   ensures l.ntoks == old(l.ntoks) + 1 && l.ttyp == old(l.ttyp)[old(l.ntoks) := t] && l.tstart == old(l.tstart)[old(l.ntoks) := old(l.start)]
+//@        && l.tend == old(l.tend)[old(l.ntoks) := l.pos] && l.start == l.pos
+//@ trusted func (*lexer).errorf(l, format, args) (result)
+//@   requires LexInv(l)
+//@   modifies l.ntoks; l.ttyp; l.tstart; l.tend
+//@   ensures result == nil && l.ntoks == old(l.ntoks) + 1 && l.ttyp == old(l.ttyp)[old(l.ntoks) := 0] && l.tstart == old(l.tstart)[old(l.ntoks) := l.start]
+//@        && l.tend == old(l.tend)[old(l.ntoks) := l.start]
+
+// ---- state functions: every step either stops right after a final item (EOF or error) or consumes input.
+// A state may only be entered where its first character has been seen (StateOK): lexText guarantees that for the
+// state it returns.
+//@ pred StateOK(f ref, l *lexer) :=
+//@      l.start == l.pos
+//@   && (f == fnref("lexField") ==> l.pos < len(l.input) && ((97 <= l.input[l.pos] && l.input[l.pos] <= 122) || (65 <= l.input[l.pos] && l.input[l.pos] <= 90)))
+//@   && (f == fnref("lexValue") ==> l.pos < len(l.input) && l.input[l.pos] == 34)
+//@   && (f == fnref("lexPlaceholder") ==> l.pos < len(l.input) && l.input[l.pos] == 36)
+//@   && (f == fnref("lexText") || f == fnref("lexField") || f == fnref("lexValue") || f == fnref("lexPlaceholder"))
+//@ functype stateFn.call(l) (next)
+//@   requires LexInv(l) && Running(l) && StateOK(self, l)
+//@   modifies l.pos; l.width; l.start; l.ntoks; l.ttyp; l.tstart; l.tend
+//@   ensures LexInv(l) && l.ntoks >= old(l.ntoks)
+//@   ensures log_is_extended: forall j int :: 0 <= j && j < old(l.ntoks) ==> l.ttyp[j] == old(l.ttyp[j]) && l.tstart[j] == old(l.tstart[j]) && l.tend[j] == old(l.tend[j])
+//@   ensures stops_after_final_item: next == nil ==> Stopped(l)
+//@   ensures continues_while_running: next != nil ==> Running(l) && StateOK(next, l)
+//@   ensures progress: next != nil ==> l.pos > old(l.pos) || (l.pos == old(l.pos) && self == fnref("lexText") && next != fnref("lexText"))
+//@   ensures progress_when_stopping: next == nil ==> l.pos > old(l.pos) || (l.pos == old(l.pos) && self == fnref("lexText"))
+//@   ensures item_positions: forall j int :: old(l.ntoks) <= j && j < l.ntoks ==> 0 <= l.tstart[j] && l.tstart[j] <= l.tend[j] && l.tend[j] <= len(l.input)
+
+//@ func [C09] lexText(l) (next) inherits stateFn.call
+//@ func [C09] lexField(l) (next) inherits stateFn.call
+//@   ensures [C09] field_class: l.ntoks == old(l.ntoks) + 1 && l.ttyp[old(l.ntoks)] == 10 && l.tend[old(l.ntoks)] > l.tstart[old(l.ntoks)]
+//@        && (forall i int :: l.tstart[old(l.ntoks)] <= i && i < l.tend[old(l.ntoks)] ==> inSet("0123456789abcdefghijklmnopqrstuvwxyzABCDEFGHIJKLMNOPQRSTUVWXYZ_", l.input[i]))
+//@ func [C09] lexValue(l) (next) inherits stateFn.call
+//@   ensures [C09] value_class: next != nil ==> l.ntoks == old(l.ntoks) + 1 && l.ttyp[old(l.ntoks)] == 11 && l.tend[old(l.ntoks)] >= l.tstart[old(l.ntoks)] + 2
+//@        && l.input[l.tstart[old(l.ntoks)]] == 34 && l.input[l.tend[old(l.ntoks)] - 1] == 34
+//@   ensures [C09] unterminated_is_error: next == nil ==> l.ntoks == old(l.ntoks) + 1 && l.ttyp[old(l.ntoks)] == 0
+//@   loop 1
+//@     invariant LexInv(l) && CanBackup(l) && Running(l) && l.ntoks == old(l.ntoks) && l.start == old(l.start) && l.pos > l.start && l.input[l.start] == 34
+//@     invariant (r == -1 ==> l.pos >= len(l.input)) && (r != -1 ==> l.width >= 1 && (r == 34 ==> l.input[l.pos - 1] == 34 && l.width == 1 && l.pos >= l.start + 2))
+//@     invariant l.ttyp == old(l.ttyp) && l.tstart == old(l.tstart) && l.tend == old(l.tend)
+//@     decreases len(l.input) - l.pos + (r == -1 ? 0 : 1)
+//@ func [C09] lexPlaceholder(l) (next) inherits stateFn.call
+//@   ensures [C09] placeholder_class: l.ntoks == old(l.ntoks) + 1 && l.ttyp[old(l.ntoks)] == 12 && l.tend[old(l.ntoks)] > l.tstart[old(l.ntoks)] && l.input[l.tstart[old(l.ntoks)]] == 36
+//@        && (forall i int :: l.tstart[old(l.ntoks)] + 1 <= i && i < l.tend[old(l.ntoks)] ==> inSet("0123456789", l.input[i]))
+
+// the lexer's main loop: terminates (measure: remaining input, and the dispatch step of lexText) with a log that ends
+// in exactly one final item
+//@ func [C09] (*lexer).run(l)
+//@   requires l != nil && l.pos == 0 && l.start == 0 && l.width == 0 && l.ntoks == 0
+//@   modifies l.state; l.pos; l.width; l.start; l.ntoks; l.ttyp; l.tstart; l.tend
+//@   ensures [C09] lexer_stops_after_one_final_item: Stopped(l)
+//@   ensures [C09] item_positions: forall j int :: 0 <= j && j < l.ntoks ==> 0 <= l.tstart[j] && l.tstart[j] <= l.tend[j] && l.tend[j] <= len(l.input)
+//@   loop 1
+//@     invariant LexInv(l)
+//@     invariant l.state != nil ==> Running(l) && StateOK(l.state, l)
+//@     invariant l.state == nil ==> Stopped(l)
+//@     invariant forall j int :: 0 <= j && j < l.ntoks ==> 0 <= l.tstart[j] && l.tstart[j] <= l.tend[j] && l.tend[j] <= len(l.input)
+//@     decreases 2 * (len(l.input) - l.pos) + (l.state == fnref("lexText") ? 1 : 0)
